@@ -179,13 +179,18 @@ package ircserver
 //@   requires i != nil && wfLocks(i) && wfSessions(i)
 //@   ensures limit: result != nil <==> (i.Config.MaxSessions > 0 && old(len(i.sessions)) >= i.Config.MaxSessions)
 //@   ensures refused: result != nil ==> (forall x robust.Id :: x in i.sessions <==> old(x in i.sessions)) && len(i.sessions) == old(len(i.sessions))
-//@   ensures created: result == nil ==> id in i.sessions && fresh(i.sessions[id]) && i.sessions[id].Id == id && i.sessions[id].auth == auth && i.sessions[id].Nick == "" && !i.sessions[id].loggedIn && !i.sessions[id].Server && !i.sessions[id].Operator && !i.sessions[id].deleted && i.sessions[id].LastActivity == timestamp && len(i.sessions[id].Channels) == 0 && i.sessions[id].lastClientMessageId == 0
+//@   ensures created: result == nil ==> id in i.sessions && fresh(i.sessions[id]) && i.sessions[id].Id == id && i.sessions[id].auth == auth && i.sessions[id].Nick == "" && !i.sessions[id].loggedIn && !i.sessions[id].Server && !i.sessions[id].Operator && !i.sessions[id].deleted && i.sessions[id].LastActivity == timestamp && len(i.sessions[id].Channels) == 0 && (forall ch lcChan :: !(ch in i.sessions[id].Channels)) && i.sessions[id].lastClientMessageId == 0
 //@   ensures others: forall x robust.Id :: x != id ==> (x in i.sessions <==> old(x in i.sessions)) && (x in i.sessions ==> i.sessions[x] == old(i.sessions[x]))
 //@   ensures wf: wfSessions(i)
 //@   modifies map[i.sessions]
 
 // Case mapping. The result is a function of the argument only (the replacer is
 // an immutable package variable); nothing else about it is assumed here.
+// Assumed from the regular expression ^[letter special][...]{0,30}$: a valid nickname is not empty.
+//@ func IsValidNickname
+//@   trusted
+//@   pure
+//@   ensures nonempty: result ==> nick != ""
 //@ func NickToLower
 //@   pure
 //@   ensures empty: (result == "") <==> (nick == "")
@@ -310,6 +315,7 @@ package ircserver
 // the pre-registration commands below, only for logged-in sessions.
 //@ func dispatch
 //@   requires api: s.Id.Reply == 0
+//@   requires alive: wfAlive(i)
 //@   opt prereg = NICK USER PASS QUIT SERVER
 
 //@ func IRCServer.ProcessMessage
@@ -342,13 +348,13 @@ package ircserver
 //@   loop range channels
 //@     invariant forall j int :: 0 <= j && j < len(channels) ==> channels[j] in i.channels
 
-
 // ---------------------------------------------------------------------------
 // Package-level facts
 
 // The prometheus constructors return non-nil collectors; the variables are assigned by the package
 // initialiser only (checked: post of init).
 //@ globalinv metrics: messagesProcessed != nil && captchasVerified != nil && captchasFailed != nil && captchaChallengesSent != nil
+//@ globalinv regexps: validNickRe != nil && validChannelRe != nil
 
 // Every entry of the command table is a non-nil *ircCommand: the table is written by init functions only,
 // each store is a fresh &ircCommand{...} or a copy of an entry registered earlier (checked structurally on
@@ -471,3 +477,85 @@ package ircserver
 //@ func IRCServer.resolveSessionToRemoteAddrLocked
 //@   requires i != nil && wfSessions(i)
 //@   modifies
+
+// ---------------------------------------------------------------------------
+// SERVER (a client command that turns the session into a services link) and the services commands.
+// Lines from an authenticated services link are assumed protocol-conforming; the shapes relied upon
+// are exactly the clauses labelled conforming* below (they are assumptions, listed in the evidence).
+
+//@ func IRCServer.cmdServer
+//@   loop range i.nicks
+//@     invariant forall j int :: 0 <= j && j < len(nicks) ==> nicks[j] in i.nicks
+//@   loop range nicks
+//@     invariant forall j int :: 0 <= j && j < len(nicks) ==> nicks[j] in i.nicks
+//@   loop range session.Channels
+//@     invariant forall j int :: 0 <= j && j < len(nicks) ==> nicks[j] in i.nicks
+//@     invariant !samearray(channelnames, nicks)
+//@     invariant nick in i.nicks && session == i.nicks[nick] && session != nil
+//@     invariant forall j int :: 0 <= j && j < len(channelnames) ==> channelnames[j] in session.Channels
+//@   loop range channelnames
+//@     invariant forall j int :: 0 <= j && j < len(nicks) ==> nicks[j] in i.nicks
+//@     invariant nick in i.nicks && session == i.nicks[nick] && session != nil
+//@     invariant forall j int :: 0 <= j && j < len(channelnames) ==> channelnames[j] in session.Channels
+//@   loop for mode < 'z'
+//@     invariant forall j int :: 0 <= j && j < len(nicks) ==> nicks[j] in i.nicks
+//@     invariant nick in i.nicks && session == i.nicks[nick] && session != nil
+
+//@ func IRCServer.cmdServerNick
+//@   requires conforming-params: len(msg.Params) == 1 || len(msg.Params) >= 4
+//@   requires conforming-nick: len(msg.Params) >= 4 ==> msg.Params[0] != ""
+//@   requires alive: wfAlive(i)
+// conforming: the pseudo-client id (link id, hash of the nickname) is not in use and its hash part is not 0
+//@   assume@call createSessionLocked#0 : conforming-fresh: !(id in i.sessions) && id.Reply != 0
+//@ func IRCServer.cmdServerJoin
+//@   requires conforming-params: len(msg.Params) >= 1
+//@   requires conforming-prefix: msg.Prefix != nil
+//@ func IRCServer.cmdServerPart
+//@   requires conforming-params: len(msg.Params) >= 1
+//@   requires conforming-prefix: msg.Prefix != nil
+//@ func IRCServer.cmdServerMode
+//@   requires conforming-params: len(msg.Params) >= 1
+//@   requires conforming-prefix: msg.Prefix != nil
+//@   loop range modes
+//@     invariant forall k int :: 0 <= k && k < len(modes) ==> len(modes[k].Mode) >= 2
+//@     invariant c != nil && ChanToLower(channelname) in i.channels && c == i.channels[ChanToLower(channelname)]
+//@ func IRCServer.cmdServerKick
+//@   requires conforming-prefix: msg.Prefix != nil
+//@ func IRCServer.cmdServerInvite
+//@   requires conforming-prefix: msg.Prefix != nil
+//@ func IRCServer.cmdServerPrivmsg
+//@   requires conforming-prefix: msg.Prefix != nil
+//@ func IRCServer.cmdServerSvsjoin
+//@   requires conforming-prefix: msg.Prefix != nil
+//@ func IRCServer.cmdServerSvspart
+//@   requires conforming-prefix: msg.Prefix != nil
+//@ func IRCServer.cmdServerTopic
+//@   requires conforming-prefix: msg.Prefix != nil
+//@ func IRCServer.cmdServerKill
+//@   requires conforming-prefix: msg.Prefix != nil
+
+// services QUIT: without prefix the link itself goes away together with all its pseudo-clients
+//@ func IRCServer.cmdServerQuit
+//@   requires alive: wfAlive(i)
+//@   requires api: s.Id.Reply == 0
+//@   loop range i.sessions
+//@     nodefault
+//@     invariant wfMid(i) && wfAuth(i) && wfLogin(i) && replyOK(reply)
+//@     invariant forall x robust.Id :: old(x in i.sessions) ==> x in i.sessions && i.sessions[x] == old(i.sessions[x])
+//@     invariant forall x robust.Id :: x in i.sessions && !seen(x) && x.Reply != 0 ==> !i.sessions[x].deleted
+//@   loop range i.sessions #1
+//@     invariant forall x robust.Id :: x in i.sessions ==> !i.sessions[x].deleted
+
+// SVSNICK: services rename a user onto a free nickname (the statement's own restriction)
+//@ func IRCServer.cmdServerSvsnick
+//@   requires conforming-free: !(NickToLower(msg.Params[1]) in i.nicks)
+//@   loop range i.channels
+//@     nodefault
+//@     invariant wfBase(i) && wfSessions(i) && wfAuth(i) && wfLogin(i) && wfNicks(i) && wfOwner(i) && replyOK(reply) && chanShape(i)
+//@     invariant s.Id in i.sessions && i.sessions[s.Id] == s && !s.deleted
+//@     invariant session != nil && session.Id in i.sessions && i.sessions[session.Id] == session && !session.deleted && session.Nick == msg.Params[1] && oldNick != NickToLower(msg.Params[1]) && !(oldNick in i.nicks) && session.Nick != ""
+//@     invariant forall x robust.Id :: old(x in i.sessions) ==> x in i.sessions && i.sessions[x] == old(i.sessions[x])
+//@     invariant members: forall ch lcChan, n lcNick :: ch in i.channels && n in i.channels[ch].nicks ==> i.channels[ch].nicks[n] != nil && allocated(i.channels[ch].nicks[n]) && (n in i.nicks || (n == oldNick && !seen(ch)))
+//@     invariant renamed: forall ch lcChan :: seen(ch) && ch in i.channels ==> !(oldNick in i.channels[ch].nicks)
+//@     invariant mine: forall ch lcChan :: ch in session.Channels ==> ch in i.channels && ((seen(ch) && NickToLower(msg.Params[1]) in i.channels[ch].nicks) || (!seen(ch) && oldNick in i.channels[ch].nicks))
+//@     invariant others: wfMemberExcept(i, session)
